@@ -307,6 +307,10 @@ func runPattern(run *vk.Run, pattern []int, variant int) {
 		// a handler given by option that is replaced by the setter before use: it must never be called
 		opts = append(opts, ebu.WithPersistenceErrorHandler(func(any, reflect.Type, error) { staleCalls++ }))
 	}
+	if (len(pattern)+variant)%2 == 1 {
+		// the store is configured last (after the error handler): option order does not matter
+		opts = append(opts[1:len(opts):len(opts)], opts[0])
+	}
 	w.bus = ebu.New(opts...)
 	if ehMode == 1 {
 		w.bus.SetPersistenceErrorHandler(w.onErr)
